@@ -222,7 +222,11 @@ Lemma tvle_on_vote_result s t r s' : on_vote_result s t r = Done s' -> tvle s s'
 Proof. unfold on_vote_result. intros H. go; tv_done. Qed.
 
 Lemma tv_restart s k s' : restart s k = Done s' -> tv s' = tv s.
-Proof. unfold restart. intros H. go; reflexivity. Qed.
+Proof.
+  unfold restart. intros H. cbv zeta in H.
+  destruct (negb _) in H; [discriminate|].
+  destruct (log_lastindex _ <? st_snapidx _) in H; go; reflexivity.
+Qed.
 
 Lemma set_voted_for_role s t c s' : set_voted_for s t c = Done s' -> st_role s' = st_role s.
 Proof. unfold set_voted_for. intros H. repeat inv1; reflexivity. Qed.
